@@ -91,12 +91,14 @@ class C19(Harness):
         if cfg['slice'] == 'gseed':
             # the global param.random_seed was set after the classes and instances were built and before anything is read (it is not changed
             # between reads: at an unchanged time a read returns the cached value by the statement's first clause); small alphabet
-            ops = [['jump', 0], ['jump', 2], ['inc'], ['read', 0, 'a'], ['read', 1, 'a'], ['read', 0, 'b'], ['read', 0, 'c']]
+            # also here: param.trigger on a dynamic parameter (it re-announces the current value; what inspection shows afterwards is not
+            # specified, but reads stay a function of the time, on this and on every other instance)
+            ops = [['jump', 0], ['jump', 2], ['inc'], ['read', 0, 'a'], ['read', 1, 'a'], ['read', 0, 'b'], ['read', 0, 'c'], ['trigger', 0, 'a']]
             if model['time'] > 0:
                 ops.append(['dec'])
             return ops
         ops = [['jump', 0], ['jump', 2], ['inc'], ['read', 0, 'a'], ['read', 1, 'a'], ['read', 0, 'b'], ['read', 0, 'c'], ['read', 1, 'd'], ['read', 0, 'e'], ['read', 0, 'f'],
-               ['inspect', 0, 'a'], ['inspect', 1, 'a'], ['push', 0], ['push', 1], ['trigger', 0, 'a']]
+               ['inspect', 0, 'a'], ['inspect', 1, 'a'], ['push', 0], ['push', 1]]
         if model['time'] > 0:
             ops.append(['dec'])
         if len(model['ctx']) < 2:
